@@ -78,6 +78,10 @@ impl Reference {
         self.out.max_card = self.out.max_card.max(v.len());
         if !self.overflow {
             self.out.probes.entry(id).or_default().push(sorted(v));
+            if let Some(st) = self.states.last() {
+                // every probe inside a loop body must observe the state of the previous round
+                self.out.loop_states.entry(id).or_default().push((st.round, st.acc));
+            }
         }
         id
     }
@@ -199,12 +203,7 @@ impl Reference {
             self.next_probe = start_id;
             self.states.push(state.clone());
             let inp = if iterate { cur.clone() } else { input.clone() };
-            let id = self.tap(&inp);
-            self.out
-                .loop_states
-                .entry(id)
-                .or_default()
-                .push((state.round, state.acc));
+            self.tap(&inp);
             let out = self.stages(inp, &l.body);
             self.states.pop();
             end_id = self.next_probe;
